@@ -78,7 +78,8 @@ class ClassInfo:
         self.module = module
         self.node = node
         self.name = node.name
-        self.is_attrs = any(_deco_name(d) in ("attr.s", "attrs", "attr.attrs", "attr.define", "define", "dataclass")
+        self.is_attrs = any(_deco_name(d) in ("attr.s", "attrs", "attr.attrs", "attr.define", "define", "dataclass", "dataclasses.dataclass",
+                                              "attr.frozen", "attr.mutable", "attrs.define", "attrs.frozen", "attrs.mutable", "frozen")
                             for d in node.decorator_list)
         self.fields: List[Field] = []
         self.methods: Dict[str, FuncInfo] = {}
